@@ -112,18 +112,28 @@ class Body:
                 return
             if isinstance(e, ast.Attribute) and isinstance(e.value, ast.Name):
                 if e.value.id in self.callees and e.attr in ('__name__', '__qualname__'):
-                    out.append(f'FName {self.callees[e.value.id]}')
-                    return
+                    self.bad(node, f'message reads {e.value.id}.{e.attr} unconditionally: AttributeError on functools.partial / callable '
+                                   f'objects (C18-K14, fixed by ff26652)')
                 if e.value.id == self.wname and e.attr == 'num_calls':
                     out.append('FOwn')
                     return
-            # getattr(func, '__name__', <constant or repr(func)>): a read that cannot fail
+            # <callee>.__name__ if hasattr(<callee>, "__name__") else repr(<callee>): the lazy name read (FName)
+            if isinstance(e, ast.IfExp) and isinstance(e.body, ast.Attribute) and isinstance(e.body.value, ast.Name) \
+                    and e.body.value.id in self.callees and e.body.attr in ('__name__', '__qualname__'):
+                x, a = e.body.value.id, e.body.attr
+                if same(e.test, f'hasattr({x}, {a!r})') and same(e.orelse, f'repr({x})'):
+                    out.append(f'FName {self.callees[x]}')
+                    return
+            # getattr(func, '__name__', <constant>): a read that cannot fail
             if isinstance(e, ast.Call) and is_name(e.func, 'getattr') and len(e.args) == 3 and not e.keywords \
                     and isinstance(e.args[0], ast.Name) and e.args[0].id in self.callees \
-                    and isinstance(e.args[1], ast.Constant) and e.args[1].value in ('__name__', '__qualname__') \
-                    and (isinstance(e.args[2], ast.Constant) or same(e.args[2], f'repr({e.args[0].id})')):
-                out.append('FOwn')
-                return
+                    and isinstance(e.args[1], ast.Constant) and e.args[1].value in ('__name__', '__qualname__'):
+                if isinstance(e.args[2], ast.Constant):
+                    out.append('FOwn')
+                    return
+                if same(e.args[2], f'repr({e.args[0].id})'):
+                    self.bad(node, 'getattr(func, "__name__", repr(func)) evaluates repr(func) EAGERLY on every call, also for named '
+                                   'callables (regression of fix ff26652: a bound method of an object whose __repr__ raises)')
             self.bad(node, f'message expression outside the whitelist: {dump(e)[:80]}')
         for x in exprs:
             go(x)
